@@ -41,7 +41,7 @@ def none_case_value(facts, cb):
     def ret_of(agg):
         # agg = ("agg", "closure:PATH", ...)
         path = agg[1].split(":", 1)[1]
-        b = facts.bodies.get(path)
+        b = facts.bodies.get(path) or (getattr(facts, "detached", None) or {}).get(path)
         if b is None:
             return None
         return Prov(b, facts).local(0)
@@ -176,7 +176,8 @@ def r1_r2(ctx):
     enr_branch = []
     for bi, t, e in g.switches():
         c = comparison(e)
-        if c and c[0] == "==" and const_int_of(c[2]) == 0 and "request_body.distances" in fmt_short(c[1]) and "Index" in fmt_short(c[1]):
+        if c and c[0] == "==" and const_int_of(c[2]) == 0 and "request_body.distances" in fmt_short(c[1]) and \
+                ("Index" in fmt_short(c[1]) or any(x[0] == "index" and const_int_of(x[2]) == 0 for x in walk(c[1]))):
             enr_branch.append((bi, g.bool_edges(bi)[1]))
     lookup_retains = []
     for bi, t in retains:
